@@ -202,6 +202,8 @@ FUNCS = [
     ("rig/machine_control/machine_controller.py", "MachineController.write_across_link",
      ["obj:scp_data_length", "int", "bytes", "int", "int", "int"],
      "exc:calls:int,int,int,int,int,int,int,bytes,int"),
+    ("rig/machine_control/machine_controller.py", "MachineController.fill",
+     ["obj:", "int", "int", "int", "int", "int", "int"], "exc:ev:none"),
     ("rig/machine_control/scp_connection.py", "SCPConnection.write.packets",
      ["int", "bytes", "buffer_size=int", "x=int", "y=int", "p=int"], "exc:gen:int,int,int,int,int,int,int,bytes"),
     ("rig/machine_control/scp_connection.py", "SCPConnection.read.packets",
@@ -252,7 +254,8 @@ TRANSPARENT_DECORATORS = ("use_contextual_arguments",)
 PAIR_DICTS = {"address_length_dtype": ("Rig.Gen.Scp.dtypeTable", 4, 4)}
 # calls recorded as events in functions declared `ev:`: method name -> (argument kinds or None = arguments not
 # modelled, type of the result or None); the receiver is `self`, an attribute chain of `self` or a module
-EVENT_CALLS = {"send": (("bytes",), None), "warn": (None, None), "_perform_read": (("int", "int"), "bytes"), "_perform_write": (("int", "bytes"), None)}
+EVENT_CALLS = {"write": (("int", "bytes", "int", "int", "int"), None), "_send_scp": (("int",) * 7, None),
+               "send": (("bytes",), None), "warn": (None, None), "_perform_read": (("int", "int"), "bytes"), "_perform_write": (("int", "bytes"), None)}
 # module-level dicts from IntEnum members to IntEnum members, regenerated by another translator module as
 # association lists `List (Nat × Nat)`: `D[k]` raises KeyError when absent
 KEY_DICTS = {"signal_types": "Rig.Gen.LoadSig.signalTypes", "diagnostic_signal_types": "Rig.Gen.LoadSig.diagSignalTypes"}
@@ -595,6 +598,8 @@ class Tr(object):
             return None
         kinds, result = EVENT_CALLS[c.func.attr]
         if not self.has_events():
+            if c.func.attr in EFFECTS:
+                return None                   # recorded as a `calls:` tuple instead
             raise NotImplementedError("event call %s in a function not declared ev:" % c.func.attr)
         if kinds is None:
             return "(PyEvent.mk \"%s\" [] [])" % c.func.attr, result          # arguments not modelled (messages)
@@ -686,7 +691,7 @@ class Tr(object):
                 d = self.done.get("%s.%s" % (c, n.attr))
                 if d is not None:
                     return lean_ty(d[0][4:] if d[0].startswith("exc:") else d[0])
-        if isinstance(n, ast.BinOp) and isinstance(n.op, ast.Add) and self.tyof(n.left).startswith("List "):
+        if isinstance(n, ast.BinOp) and isinstance(n.op, (ast.Add, ast.Mult)) and self.tyof(n.left).startswith("List "):
             return self.tyof(n.left)
         sa_ = self.self_attr(n) if isinstance(n, ast.Attribute) and self.types.get(self.objname) == "obj" else None
         if sa_ is not None and sa_[0] == "state":
@@ -875,6 +880,9 @@ class Tr(object):
             return self.raising("(pyKeyGet %s %s)" % (kd[0], self.e(kd[1])))
         if isinstance(n, ast.Constant) and isinstance(n.value, bytes):
             return "([%s] : List Int)" % ", ".join(str(b) for b in bytearray(n.value))
+        if isinstance(n, ast.BinOp) and isinstance(n.op, ast.Mult) and self.tyof(n.left).startswith("List ") \
+                and self.tyof(n.right) == "Int":
+            return "(List.replicate (%s).toNat %s).flatten" % (self.e(n.right), self.e(n.left))   # b * n (n <= 0: empty)
         if isinstance(n, ast.BinOp) and isinstance(n.op, ast.Add) and self.tyof(n.left).startswith("List ") \
                 and self.tyof(n.right) == self.tyof(n.left):
             return "(%s ++ %s)" % (self.e(n.left), self.e(n.right))
@@ -1302,6 +1310,18 @@ class Tr(object):
         args += [self.e(a) for a in c.args[1:]]
         return c.func.id, "(%s %s)" % (lean_name(c.func.id), " ".join(args))
 
+    def is_event_stmt(self, s):
+        """shape test only (no translation of the arguments): is `s` an event call / its assignment?"""
+        c = s.value if isinstance(s, (ast.Expr, ast.Assign)) else None
+        if not (isinstance(c, ast.Call) and isinstance(c.func, ast.Attribute) and c.func.attr in EVENT_CALLS):
+            return False
+        if not self.has_events():
+            return False
+        r = c.func.value
+        while isinstance(r, ast.Attribute):
+            r = r.value
+        return isinstance(r, ast.Name) and (r.id == "self" or r.id not in self.lty)
+
     def event_stmt(self, s):
         """`X.m(...)` / `v = X.m(...)` for an EVENT_CALLS method -> (event expression, result type, target) or None"""
         if isinstance(s, ast.Expr):
@@ -1340,6 +1360,8 @@ class Tr(object):
                 return ast.Tuple(elts=list(v.args), ctx=ast.Load())
             return v
         c = s.value
+        if self.is_event_stmt(s):
+            return None                   # recorded as an event of an `ev:` function
         if (isinstance(c, ast.Call) and isinstance(c.func, ast.Attribute) and isinstance(c.func.value, ast.Name)
                 and c.func.value.id == "self" and c.func.attr in EFFECTS):
             # keyword arguments follow the positional ones, in source order (the declared `calls:` arity fixes the shape)
@@ -1358,7 +1380,7 @@ class Tr(object):
             if nm not in out:
                 out.append(nm)
         for s in stmts:
-            if self.event_stmt(s) is not None:
+            if self.is_event_stmt(s):
                 add("out_")
             if isinstance(s, ast.Assign):
                 for t in s.targets:
@@ -1384,7 +1406,7 @@ class Tr(object):
         """names assigned on every path through stmts that reaches their end"""
         out = set()
         for s in stmts:
-            if self.event_stmt(s) is not None:
+            if self.is_event_stmt(s):
                 out.add("out_")
             if isinstance(s, ast.Assign):
                 for t in s.targets:
@@ -1695,6 +1717,18 @@ class Tr(object):
         return None
 
     def if_stmt(self, s, rest, ind, tail):
+        try:
+            saved = (dict(self.lty), dict(self.narrow), list(self.pending), len(self.aux), self.ntmp, list(self.oracles))
+            return self.if_stmt_(s, rest, ind, tail, False)
+        except NotImplementedError as e:
+            if "different types in the branches" not in str(e) or rest or tail is not None or self.loops:
+                raise
+            self.lty, self.narrow, self.pending = saved[0], saved[1], saved[2]
+            del self.aux[saved[3]:]
+            self.ntmp, self.oracles = saved[4], saved[5]
+            return self.if_stmt_(s, rest, ind, tail, True)
+
+    def if_stmt_(self, s, rest, ind, tail, force_dup):
         st = self.static_test(s.test)
         if st is not None:
             # decided by the declared parameter types: only the live branch exists
@@ -1722,7 +1756,7 @@ class Tr(object):
         my_pending, self.pending = self.pending, []
         then_narrow = nt is not None and not nt[2]
         else_narrow = nt is not None and nt[2]
-        if not self.has_exit([s]) and self.has_raising(s.body + s.orelse) and not self.loops:
+        if not force_dup and not self.has_exit([s]) and self.has_raising(s.body + s.orelse) and not self.loops:
             # no return / raise statement, but a raising EXPRESSION inside a branch: the branches compute
             # `Except String <tuple of the variables they assign>`, an error leaves the function
             da = self.definitely_assigned(s.body) & self.definitely_assigned(s.orelse)
@@ -1746,7 +1780,7 @@ class Tr(object):
             text += self.block(rest, ind, tail)
             self.pending = my_pending
             return self.wrap_pending(pad, text)
-        if self.has_exit([s]) or self.has_raising(s.body + s.orelse):
+        if force_dup or self.has_exit([s]) or self.has_raising(s.body + s.orelse):
             if tail is None and not self.loops and self.returns(s.body) and (self.returns(s.orelse) or not s.orelse):
                 a = branch(s.body, then_narrow, ind + 1, None)
                 b = branch(s.orelse if s.orelse else rest, else_narrow, ind + 1, None)
